@@ -22,7 +22,8 @@ From Coq Require Import List Arith ZArith Bool Lia.
 Import ListNotations.
 Require Import MayV.Rt.PoisonModel.
 
-Record ttask := { thr : nat; tcst : Z; tunw : option umode; tguards : list (nat * bool) (* lock, guard.panicking *) }.
+Record ttask := { thr : nat; tcst : Z; tunw : option umode; tguards : list (nat * bool) (* lock, guard.panicking *);
+                  tcu : bool (* Cancel.unwinding: the cancel panic was raised in this task (fix bce9086) *) }.
 Record tst := { TT : nat -> ttask; pcnt : nat -> Z; tfailed : nat -> bool; towner : nat -> option nat }.
 
 Inductive taction :=
@@ -42,48 +43,48 @@ Definition tstep (s : tst) (a : taction) : option tst :=
   | TLock t l =>
       match towner s l with
       | None => let x := TT s t in
-                Some {| TT := upd (TT s) t {| thr := thr x; tcst := tcst x; tunw := tunw x; tguards := (l, borrow_panicking (tpanicking s t)) :: tguards x |};
+                Some {| TT := upd (TT s) t {| thr := thr x; tcst := tcst x; tunw := tunw x; tguards := (l, borrow_panicking (tpanicking s t)) :: tguards x; tcu := tcu x |};
                         pcnt := pcnt s; tfailed := tfailed s; towner := upd (towner s) l (Some t) |}
       | Some _ => None end
   | TDrop t l =>
       let x := TT s t in
       match find (fun g => Nat.eqb (fst g) l) (tguards x) with
       | Some (_, gp) =>
-          Some {| TT := upd (TT s) t {| thr := thr x; tcst := tcst x; tunw := tunw x; tguards := filter (fun g => negb (Nat.eqb (fst g) l)) (tguards x) |};
+          Some {| TT := upd (TT s) t {| thr := thr x; tcst := tcst x; tunw := tunw x; tguards := filter (fun g => negb (Nat.eqb (fst g) l)) (tguards x); tcu := tcu x |};
                   pcnt := pcnt s;
-                  tfailed := upd (tfailed s) l (tfailed s l || done_stores gp (tpanicking s t) true (tcst x));
+                  tfailed := upd (tfailed s) l (tfailed s l || done_stores gp (tpanicking s t) true (tcu x));
                   towner := upd (towner s) l None |}
       | None => None end
   | TPanic t v =>
       let x := TT s t in
       match tunw x with
-      | None => Some {| TT := upd (TT s) t {| thr := thr x; tcst := tcst x; tunw := Some (MPanic v); tguards := tguards x |};
+      | None => Some {| TT := upd (TT s) t {| thr := thr x; tcst := tcst x; tunw := Some (MPanic v); tguards := tguards x; tcu := tcu x |};
                         pcnt := upd (pcnt s) (thr x) (pcnt s (thr x) + 1)%Z; tfailed := tfailed s; towner := towner s |}
       | Some _ => None end
   | TCancelReq t =>
       let x := TT s t in
-      Some (set_t s t {| thr := thr x; tcst := (if Z.odd (tcst x) then tcst x else tcst x + 1)%Z; tunw := tunw x; tguards := tguards x |})
+      Some (set_t s t {| thr := thr x; tcst := (if Z.odd (tcst x) then tcst x else tcst x + 1)%Z; tunw := tunw x; tguards := tguards x; tcu := tcu x |})
   | TCancelPoint t =>
       let x := TT s t in
       match tunw x with
       | None => if is_canceled (tcst x) && negb (tpanicking s t)
-                then Some {| TT := upd (TT s) t {| thr := thr x; tcst := tcst x; tunw := Some MCancel; tguards := tguards x |};
+                then Some {| TT := upd (TT s) t {| thr := thr x; tcst := tcst x; tunw := Some MCancel; tguards := tguards x; tcu := true |};
                              pcnt := upd (pcnt s) (thr x) (pcnt s (thr x) + 1)%Z; tfailed := tfailed s; towner := towner s |}
                 else Some s      (* the call returns, nothing is raised *)
       | Some _ => None end
   | TCaught t =>
       let x := TT s t in
       match tunw x, tguards x with
-      | Some _, [] => Some {| TT := upd (TT s) t {| thr := thr x; tcst := tcst x; tunw := None; tguards := [] |};
+      | Some _, [] => Some {| TT := upd (TT s) t {| thr := thr x; tcst := tcst x; tunw := None; tguards := []; tcu := tcu x |};
                               pcnt := upd (pcnt s) (thr x) (pcnt s (thr x) - 1)%Z; tfailed := tfailed s; towner := towner s |}
       | _, _ => None end
   | TMigrate t th =>
       let x := TT s t in
-      Some (set_t s t {| thr := th; tcst := tcst x; tunw := tunw x; tguards := tguards x |})
+      Some (set_t s t {| thr := th; tcst := tcst x; tunw := tunw x; tguards := tguards x; tcu := tcu x |})
   end.
 
 Definition tinit : tst :=
-  {| TT := fun _ => {| thr := 0; tcst := 0; tunw := None; tguards := [] |}; pcnt := fun _ => 0%Z; tfailed := fun _ => false; towner := fun _ => None |}.
+  {| TT := fun _ => {| thr := 0; tcst := 0; tunw := None; tguards := []; tcu := false |}; pcnt := fun _ => 0%Z; tfailed := fun _ => false; towner := fun _ => None |}.
 Inductive TReach : tst -> Prop :=
 | TR0 : TReach tinit
 | TRS s a s' : TReach s -> tstep s a = Some s' -> TReach s'.
@@ -136,7 +137,7 @@ Qed.
 Theorem tls_drop_is_the_decision s t l gp :
   find (fun g => Nat.eqb (fst g) l) (tguards (TT s t)) = Some (l, gp) ->
   exists s', tstep s (TDrop t l) = Some s' /\
-    tfailed s' l = tfailed s l || done_stores gp (tpanicking s t) true (tcst (TT s t)) /\ towner s' l = None.
+    tfailed s' l = tfailed s l || done_stores gp (tpanicking s t) true (tcu (TT s t)) /\ towner s' l = None.
 Proof.
   intro F. cbn [tstep]. rewrite F. eexists. split; [reflexivity|]. cbn. unfold upd. rewrite Nat.eqb_refl. split; reflexivity.
 Qed.
